@@ -316,7 +316,9 @@ func runC11(c *Ctx) {
 
 		// ---- templates: identity rewrite and renaming -------------------------------------------------------------
 		if i%3 == 0 {
-			tpl := Pick(r, []string{"", "Hi ", "x@@y ", "(", "cost: "}) + "@(" + text + ")" + Pick(r, []string{"", " and @foo.name", " @bar", ".", " @(1 + 2)!"})
+			// (escaped at-signs at the very start of the template and straight after an expression or a reference, where a body segment begins)
+			tpl := Pick(r, []string{"", "Hi ", "x@@y ", "(", "cost: ", "@@foo is how to write @foo ", "@@(1 + 2) ", "@@@foo "}) + "@(" + text + ")" +
+				Pick(r, []string{"", " and @foo.name", " @bar", ".", " @(1 + 2)!", "@@foo", "@@(2 * 3)", " @bar@@bar @@"})
 			tdesc := map[string]any{"template": tpl}
 			ctx := c11Context(r)
 			if strings.Contains(text, "^") {
@@ -334,6 +336,11 @@ func runC11(c *Ctx) {
 						sig = "identity-rewrite-changes-value:dot-integer-chain"
 					}
 					c.Fail("monitor", "M-identity-rewrite", sig, "rewriting a template with the identity transformation changes what it evaluates to", tdesc)
+				}
+				// ... and rewriting the rewritten template changes nothing more
+				if again, aerr := refactor.Template(identity, nil, func(excellent.Expression) bool { return true }); aerr == nil && again != identity {
+					tdesc["rewritten"], tdesc["rewritten_again"] = identity, again
+					c.Fail("monitor", "M-identity-rewrite", "identity-rewrite-not-fixed-point", "rewriting a rewritten template with the identity transformation changes it again", tdesc)
 				}
 			}
 			// rename foo -> zed.json: the original with foo = V is the renamed one with zed.json = V (and no foo)
